@@ -1,11 +1,11 @@
-\* C08 thorough, code as is: degraded mode, put faults, expiring object, two tombstones
+\* C08 thorough, code as is: epochs (lock expiry), degraded mode, 1 lock, 2 tombstones
 SPECIFICATION Spec
 CONSTANTS
   NS = 2
-  MaxEpoch = 3
+  MaxEpoch = 2
   BugH6 = TRUE
   CatSet = "c08x"
-  Ops = {"Put", "Bcast", "GC", "Epoch", "SetMode", "FailPut"}
+  Ops = {"Put", "Bcast", "GC", "Epoch", "SetMode"}
   Modes = {"rw", "ro", "dro"}
   HealthyLock = FALSE
   MaxInFlight = 2
